@@ -176,6 +176,8 @@ impl LogReader {
     where
         T: DeserializeOwned,
     {
+        #[cfg(feature = "verif")]
+        crate::verif::point("reader.at");
         // We assume that the caller always provide a valid data entry so we can expand the Mmap
         // and try reading with the `len` and `pos`.
         if pos >= self.mmap.len() as u64 {
